@@ -38,7 +38,7 @@ func gz(data []byte) []byte {
 	return b.Bytes()
 }
 
-var c06Names = []string{"a.log", "b.log", "c.txt", "a1.log", "a[1].log", "q?.log", "st*r.log", "x.gz", "y.log.gz", "z", "0", "é.log"}
+var c06Names = []string{"a.log", "b.log", "c.txt", "a1.log", "a[1].log", "q?.log", "st*r.log", "x.gz", "y.log.gz", "z", "0", "é.log", "100%d.log", "b%s.txt"}
 var c06Dirs = []string{"", "d0", "d0/s", "d1", "d[2]"}
 
 func c06SmallCorpus(t *simrt.Tape) []byte {
